@@ -82,4 +82,16 @@ CONF["C06"] = {
     "assumptions": ["domain clause as listed in level_note", "component expansion model of harness/fitmodel/expand.go"],
 }
 
+CONF["C07"] = {
+    "pkg": "c07",
+    "level": "exploration",
+    "technique": "re-encode / fix-point relation on repository files, rapid-generated accepted streams and structurally mutated inputs with repaired framing; native go fuzzing behind a framing layer in the thorough tier",
+    "level_text": "Generated search with a metamorphic oracle: whatever Decode accepts is encoded, integrity-checked, decoded again and compared field by field with the first generation (strings/arrays cut to the profile lengths, arrays modulo invalid padding, local times by wall clock), then once more for the fix-point. Inputs: all repository .fit files, generated well-formed streams, and mutants whose size/CRC framing is repaired so mutations reach the record logic. Disagreements that are exactly an open finding are excluded and counted; everything else is a violation.",
+    "level_note": "Trusted: the comparator's equivalences are the ones the property names. Open findings D9, D13, D15, D16, K1 (and D10/D11 where accumulated destinations are involved) are excluded by signature; each is reproduced by a dedicated input on every run.",
+    "quick": {"checks": 2500, "timeout": 400, "shrinktime": "10s"},
+    "thorough": {"checks": 60000, "timeout": 2400, "shards": 8, "shrinktime": "30s", "fuzz": {"target": "FuzzReencode", "seconds": 150}},
+    "rule": "corpus: every .fit file under testdata (quick: up to 200 kB) x both output byte orders. streams: rapid GenStream, accepted by construction. mutants: structural mutations of generated streams and parsed corpus files, framing repaired. non-trivial = Decode accepted the input (and, for generated streams, it has at least one message beyond file_id); distinct by fingerprint of the input bytes. Cases are vacuous when Decode rejects the input (counted in evaluations only).",
+    "assumptions": ["strings compare up to the longest whole-character prefix that fits length-1 bytes; arrays up to the profile length"],
+}
+
 NOT_APPLICABLE = {}
